@@ -24,7 +24,7 @@ RULE = (
     "contents {fingerprint 2^(iN+j)3^b, every single-cell array, every 0/1 array for N<=3}; "
     "(b) CorrFunc member subsets x auto/cross -> sample() and from_corrfuncs with {none,ref,unk,both}; "
     "(c) HistData.from_catalog on 2..4 patch catalogs; (d) all sample matrices over {0,1,2} with M*B<=6 "
-    "plus fingerprints; (e) pipeline with patch k removed from all frames. Oracle: explicit-loop "
+    "plus fingerprints, and the same matrices on top of a common value 1e6 (exact shift invariance, tolerance 1e-8); (e) pipeline with patch k removed from all frames. Oracle: explicit-loop "
     "leave-one-out recomputation in patch-index order, (N-1)/N sum (x_k-mean)(x_k-mean)^T. Non-trivial: "
     "contents in which a permutation/loss of a patch changes some sample (asserted per case)."
 )
@@ -71,6 +71,10 @@ def cases(tier, seed):
         if M * B <= 6:
             for vals in itertools.product((0, 1, 2), repeat=M * B):
                 out.append(dict(part="cov", M=M, B=B, vals=list(vals)))
+                if M * B <= 4 or tier == "thorough":
+                    # the same scatter on top of a large common value (counts of 1e6 objects with a scatter of
+                    # order one): the covariance is shift invariant, all inputs are exact in binary
+                    out.append(dict(part="cov", M=M, B=B, vals=list(vals), offset=1.0e6))
         out.append(dict(part="cov", M=M, B=B, vals=[C.PRIMES[i] * (1 + i % 3) for i in range(M * B)]))
     # (e) end to end: remove patch k from every input frame and measure again (differential oracle)
     pas = ("b0", "w0", "n0") if tier == "quick" else ("c0", "b0", "w0", "n0", "f0")
@@ -280,12 +284,16 @@ def run_cov(case):
     from yaw.correlation.corrdata import SampledData
 
     M, B = case["M"], case["B"]
-    samples = np.array(case["vals"], dtype=float).reshape(M, B)
+    small = np.array(case["vals"], dtype=float).reshape(M, B)
+    offset = case.get("offset", 0.0)
+    samples = small + offset
     sd = SampledData(C.make_binning(B), samples.mean(axis=0), samples)
     v = []
-    ecov = ref.ref_cov(samples)
+    ecov = ref.ref_cov(small)  # exact shift invariance: reference from the small integers
     cov = sd.covariance
-    if cov.shape != (B, B) or not ref.close(cov, ecov, rtol=1e-12, atol=1e-14):
+    # with the offset the deviations from the mean carry a rounding error of offset*2^-53 each
+    rtol, atol = (1e-12, 1e-14) if not offset else (1e-8, 1e-9)
+    if cov.shape != (B, B) or not ref.close(cov, ecov, rtol=rtol, atol=atol):
         v.append(viol("C03/covariance/wrong", f"covariance of {samples.tolist()} is {cov.tolist()}, "
                       f"expected {ecov.tolist()}"))
     else:
@@ -293,7 +301,7 @@ def run_cov(case):
             v.append(viol("C03/covariance/asymmetric", "covariance is not symmetric"))
         if np.linalg.eigvalsh((cov + cov.T) / 2).min() < -1e-12 * max(np.trace(cov), 1e-300):
             v.append(viol("C03/covariance/not-psd", "covariance has a negative eigenvalue"))
-        if not ref.close(sd.error, np.sqrt(np.diag(ecov)), rtol=1e-12, atol=1e-14):
+        if not ref.close(sd.error, np.sqrt(np.diag(ecov)), rtol=rtol, atol=np.sqrt(atol)):
             v.append(viol("C03/error/wrong", "error is not the root of the covariance diagonal"))
     return v, bool(ecov.any())
 
